@@ -3248,6 +3248,19 @@ class StateEngine(object):
             # Parallel and Map states apply ResultPath to "raw input"
             data = branch_info["Input"]  # Get saved raw input
 
+            """
+            Restore the retry information of the Map or Parallel state, which
+            was saved in the Branch info when the branches were launched. This
+            is needed for any failure of the Map/Parallel state, not only for a
+            failed Branch: if e.g. its ResultPath cannot be applied after the
+            join the retriers must see the attempts already made, otherwise
+            MaxAttempts is never reached and the state is retried forever.
+            """
+            if retry_count:
+                context_state["RetryCount"] = retry_count
+            if retry_timeout:
+                context_state["RetryTimeout"] = retry_timeout
+
             if error:
                 # Set range to terminate subsequent branches/iterations
                 branch_results["terminated"] = str(start) + ":" + str(end)
